@@ -143,7 +143,9 @@ class FacWorld(World):
         kw = dict(station_id=4711, station_type=5)
         kw.update(vehicle_kw)
         with self:
-            self.cam_tm = CAMTransmissionManagement(self.btp, coder("cam"), VehicleData(**kw))
+            vd = VehicleData(**kw)
+            self.immutables.append(vd)          # frozen dataclass
+            self.cam_tm = CAMTransmissionManagement(self.btp, coder("cam"), vd)
         return self.cam_tm
 
     def add_vam(self, clustering=False, profile="pedestrian", **dev_kw):
